@@ -9,5 +9,5 @@ Extraction "model.ml"
   Prog.input_of_exts San.mp4_sanitize San.sanitize_prog Prog.run_trace Prog.run_fault Prog.op_count Prog.cursor
   Header.hdr_read Header.hdr_put Box.parse_boxes Box.put_nodes Box.moov_check
   Spec.tile Spec.accept_boxes Spec.media_run Spec.plan_of Spec.overflow_case Spec.co_tables Spec.co_regions
-  Spec.masked_eq Spec.metadata_shape Spec.explicit_sizes Spec.last_moov Spec.first_mdat Spec.the_ftyp Spec.tb_payload
+  Spec.masked_eq Spec.md_input Spec.metadata_shape Spec.explicit_sizes Spec.last_moov Spec.first_mdat Spec.the_ftyp Spec.tb_payload
   Spec.inside Spec.shift Spec.is Spec.MDAT Spec.MOOV Spec.FTYP.
